@@ -4,7 +4,7 @@
    arguments and arbitrary oracle/remote inputs) from the empty store over either disk kind [m], and
    then over the arguments of the call being judged in the reached state. *)
 From Coq Require Import List NArith ZArith Bool.
-From BLB Require Import Store.Bytes Store.Model Store.Proofs Store.WF Store.Conflict Store.Mono
+From BLB Require Import Store.Bytes Store.BytesProofs Store.Model Store.Proofs Store.WF Store.Conflict Store.Mono
      Store.Steps Store.Monotone Store.Readd Store.FaultModel Store.Faults C09.Model C09.Proofs.
 Import ListNotations.
 
@@ -182,3 +182,38 @@ Theorem failed_install_leaves_nothing :
                          Some (mkfile (Some v) (rle_write [] data 0%N)))).
 Proof. exact failed_install_lemma. Qed.
 Print Assumptions failed_install_leaves_nothing.
+
+(* [FULL] the byte-level meaning of the observables, for the served copy f of a tract at its current version v in any reached state. Its run list is canonical and is the only canonical run list with its bytes, so comparing run lists compares bytes. A read at v returns exactly the bytes of the requested range of the stored byte string, plain_read of expand, in canonical form, with NoError iff the whole range lies inside the file and EOF otherwise. Stat returns the number of stored bytes. A write at v succeeds and the served copy then holds exactly the old bytes overwritten at the offset with the written bytes, any hole between the old end and the offset filled with zeros, plain_write, its size is the maximum of the old size and offset plus length, the version is kept, and every later read at v returns the requested range of exactly those bytes *)
+Theorem read_returns_last_write_bytes :
+  forall m ops t v f,
+    let s := run (init m) ops in
+    cur s t = Some f -> f_ver f = Some v ->
+    canon (f_data f) /\
+    (forall r, canon r -> expand r = expand (f_data f) -> r = f_data f) /\
+    (forall len off,
+        expand (snd (read s t v len off)) = plain_read (expand (f_data f)) (N.to_nat off) (N.to_nat len) /\
+        canon (snd (read s t v len off)) /\
+        (fst (read s t v len off) = E_OK <-> (len <= rle_len (f_data f) - off)%N) /\
+        (fst (read s t v len off) = E_OK \/ fst (read s t v len off) = E_EOF)) /\
+    (N.to_nat (snd (fst (stat s t v))) = length (expand (f_data f))) /\
+    (forall d off,
+        let s' := fst (do_write s t v d off) in
+        snd (do_write s t v d off) = E_OK /\
+        exists f', cur s' t = Some f' /\ f_ver f' = Some v /\ canon (f_data f') /\
+                   expand (f_data f') = plain_write (expand (f_data f)) (expand d) (N.to_nat off) /\
+                   rle_len (f_data f') = N.max (rle_len (f_data f)) (off + rle_len d) /\
+                   forall len off',
+                     expand (snd (read s' t v len off')) =
+                     plain_read (plain_write (expand (f_data f)) (expand d) (N.to_nat off))
+                                (N.to_nat off') (N.to_nat len)).
+Proof. exact bytes_lemma. Qed.
+Print Assumptions read_returns_last_write_bytes.
+
+(* [FULL] the content every install writes, as bytes. The copy PullTract installs, rle_write of the fetched data into an empty file at offset 0 as named in pull_respects_version and version_monotone, denotes exactly the fetched bytes, is canonical and is the normal form of the fetched run list, so it is complete. The copy Create installs denotes offset many zero bytes followed by the given bytes *)
+Theorem installed_copy_bytes :
+  forall data d off,
+    expand (rle_write [] data 0) = expand data /\ canon (rle_write [] data 0) /\
+    rle_write [] data 0 = rle_norm data /\
+    expand (rle_write [] d off) = zeros_l (N.to_nat off) ++ expand d.
+Proof. exact install_bytes_lemma. Qed.
+Print Assumptions installed_copy_bytes.
